@@ -3,7 +3,8 @@ package main
 // Several pools in ONE process, literal option lists (properties C07, C08): the configuration of a pool / of a
 // task must be a function of the options given to THAT NewPool / Send call only.
 //
-// case:  antsmp H=<horizon> <npools> <pool>... <task>...
+// case:  antsmp H=<horizon> [gc=<t>,<t>...] <npools> <pool>... <task>...
+//        gc=: at each of these virtual instants runtime.GC() is forced twice (2 ns apart) while the script goes on
 // pool:  <create>/<opts>          created by NewPool(opts...) at the virtual instant <create> (pools are listed in
 //                                 creation order and created one after the other by one goroutine)
 //        opts: "-" (none) or tokens joined by '+':  s<int> = WithSize(int) (any sign)
@@ -53,12 +54,20 @@ func splitOpts(s string) []string {
 }
 
 func runAntsMP(toks []string) string {
-	if len(toks) < 3 || !strings.HasPrefix(toks[1], "H=") {
+	if len(toks) < 4 || !strings.HasPrefix(toks[1], "H=") {
 		panic("bad antsmp")
 	}
 	horizon := time.Duration(atoi64(toks[1][2:]))
-	np := int(atoi64(toks[2]))
-	rest := toks[3:]
+	toks = toks[2:]
+	var gcAt []time.Duration
+	if strings.HasPrefix(toks[0], "gc=") {
+		for _, g := range strings.Split(toks[0][3:], ",") {
+			gcAt = append(gcAt, time.Duration(atoi64(g)))
+		}
+		toks = toks[1:]
+	}
+	np := int(atoi64(toks[0]))
+	rest := toks[1:]
 	if len(rest) < np {
 		panic("too few pools")
 	}
@@ -92,6 +101,9 @@ func runAntsMP(toks []string) string {
 			panic("task without behaviour")
 		}
 		specs = append(specs, ts)
+		if needsBusyPool(ts.behs) {
+			ensureBusyPool()
+		}
 	}
 
 	var mu sync.Mutex
@@ -138,6 +150,20 @@ func runAntsMP(toks []string) string {
 			logf(func() string { pools[p] = pl; return fmt.Sprintf("NP,%d,%d", p, now()) })
 		}
 	}()
+
+	// forced garbage collections in the middle of the script: every pool is still referenced (pools[]) and used afterwards
+	for _, g := range gcAt {
+		g := g
+		wg.Add(1)
+		go func() {
+			defer wg.Done()
+			time.Sleep(g - time.Since(base))
+			logf(func() string { return fmt.Sprintf("GC,%d", now()) })
+			runtime.GC()
+			time.Sleep(2 * time.Nanosecond) // the finalizer goroutine (if anything was finalizable) runs before the clock moves
+			runtime.GC()
+		}()
+	}
 
 	tasks := make([]ants.Task, len(specs))
 	returned := make([]bool, len(specs))
